@@ -19,7 +19,9 @@ add("C15", "exploration",
     "Exploration: 200 (quick) / 5 000 (thorough) generated openings per seed - all four verbs x option codes incl. 3, 255 and command-valued codes, two-byte "
     "commands 241-249, escaped IAC, data between and after sequences, every cut position inside IAC sequences, four socket timeouts, six read sizes - run "
     "through the real telnet transport on loopback TCP; an independent RFC 854 reference parser decides expected replies and data. Cases whose real-time "
-    "negotiation window was closed by load are inconclusive, never held. Subnegotiation is outside the claim.",
+    "negotiation window was closed by load are inconclusive, never held. A re-open family runs 2-3 consecutive openings on ONE transport/driver object, the earlier ones ending "
+    "in every parser state (clean, after IAC, after IAC verb, inside a subnegotiation) by idle expiry, half-close or reset; each later opening is judged against a fresh reference. "
+    "Subnegotiation is outside the claim.",
     "DESIGN.md §3 C15", "real telnet transport vs loopback TCP server with PRNG openings/segmentations; RFC 854 reference parser as oracle; delivery established from TCP_INFO; three-valued verdicts")
 
 add("C05", "fault_enumeration",
@@ -43,7 +45,7 @@ add("C13", "exploration",
     "crossed with 13 driver-level x operation-level failure-list combinations, stop-on-failed on/off and all nine generic/network send-commands / send-configs / "
     "send-config / from-file entry points, the real library's Response.Failed, MultiResponse.Failed with its Operations list, the collapsed SendConfig response and "
     "the lines the device model actually received are compared with a reference computed from the device's own output and the list in force; random longer lists and "
-    "hostile placements (split across reads, broken by escape/CR, echo-only, case variant) included. Not a proof: only the modelled device behaviours were exercised.",
+    "hostile placements (split across reads, broken by escape/CR, echo-only, case variant) included; operation options are passed in PRNG-permuted order mixed with neutral options of other layers. Not a proof: only the modelled device behaviours were exercised.",
     "DESIGN.md §3 C13", "real generic/network drivers against a causal two-mode CLI device model; reference contains-any over rendered output vs Failed flags, aggregate/collapsed errors and the device's received-line log")
 
 add("C19", "exploration",
@@ -140,8 +142,11 @@ add("C14", "exploration",
     "Exhaustive over the 192-cell factorial (both SSH transports x strict on/off x four known-hosts states x three auth configurations x two users x two servers) plus 192 "
     "argument-list captures, against in-process SSH servers with fresh host keys and the real OpenSSH client: connections must be established exactly when strict checking "
     "is off or the known-hosts file holds the server's key; the server must see the configured user and key, and the password only inside the auth exchange (absent from "
-    "argv and the child's environment). Evidence for one OpenSSH version on loopback.",
-    "DESIGN.md §3 C14", "real transports against an instrumented in-process SSH server + argv-capturing stand-in binary; exhaustive factorial")
+    "argv and the child's environment). Every argument list the system transport builds is also resolved by the real client (ssh -G) against hostile ssh config files (Port, User, "
+    "IdentityFile, StrictHostKeyChecking under Host/Match) and the effective port, user, key, strict mode and known-hosts file compared with the driver's configuration; decoy "
+    "servers catch a connection going to a port named only in the config file; hosts given as a name (localhost) with name/ip known-hosts entries differing. "
+    "Evidence for one OpenSSH version on loopback.",
+    "DESIGN.md §3 C14", "real transports against an instrumented in-process SSH server + argv-capturing stand-in binary; exhaustive factorial; effective-configuration oracle via ssh -G; decoy servers")
 
 add("C16", "exploration",
     "Exploration: 450 (quick) / 4500 (thorough) duplex transfers over the system (pty), standard (shell+pty, netconf subsystem) and telnet transports (read sizes 1-65535, "
